@@ -454,4 +454,264 @@ theorem combineLoop_inv {out : List Label} {b : Heap} (items : List (Label × Co
       have := ih hl (combineStep_inv hs inv)
       simpa using this
 
+
+/-! ## `TableMetadata(...)`, `_combine_tables` as a whole -/
+
+theorem newTableMeta_ok {h : Heap} {name : Str} {d : Nat} {origin : Origin} {tr st : Bool} {h' : Heap} {m : Nat}
+    (hn : newTableMeta h name d origin tr st = .ok (h', m)) :
+    m = h.tmetas.next ∧ ∃ xs, h.dsets.get d = some xs ∧
+      h' = { h with dsets := (h.dsets.alloc xs.eraseDups).1,
+                    tmetas := (h.tmetas.alloc ⟨name, d, origin, tr, st⟩).1.write h.tmetas.next
+                                ⟨name, h.dsets.next, origin, tr, st⟩ } := by
+  unfold newTableMeta at hn
+  simp only at hn
+  cases hd : h.dsets.get d with
+  | none => simp [Store.alloc, hd] at hn
+  | some xs =>
+    simp [Store.alloc, hd] at hn
+    obtain ⟨rfl, rfl⟩ := hn
+    exact ⟨rfl, xs, rfl, by simp [Store.alloc, Store.write]⟩
+
+/-- everything a successful `_combine_tables` with at least one source carrying info did -/
+theorem combine_some {h : Heap} {m : Option Str} {oi : Option Ref} {o : Other} {out : List Label}
+    {h' : Heap} {i : Nat} {w : List Warn} (hc : combine h m oi o out = .ok (h', some i, w)) :
+    ∃ src warned d0 rest parents ns1 ns tm0 h1 mref items h2 acc,
+      selectSources m o = .ok (src, warned) ∧
+      w = (if warned then [Warn.unknownMethod] else []) ∧
+      src.filterMap id = d0 :: rest ∧
+      originsOf h (d0 :: rest) = .ok parents ∧
+      nonStrict h oi = .ok ns1 ∧ (if ns1 then Except.ok true else nonStrict h o.own) = .ok ns ∧
+      metaOf h d0 = .ok tm0 ∧
+      newTableMeta h tm0.name tm0.dests (.node none parents (some (pandasOp m))) false (!ns)
+        = .ok (h1, mref) ∧
+      sourceItems h (d0 :: rest) = .ok items ∧
+      combineLoop out (h1, []) items = .ok (h2, acc) ∧
+      i = h2.infos.next ∧
+      h' = { h2 with dicts := (h2.dicts.alloc acc).1,
+                     infos := (h2.infos.alloc ⟨mref, h2.dicts.next, none⟩).1 } := by
+  unfold combine at hc
+  cases hsel : selectSources m o with
+  | error e => simp [hsel] at hc
+  | ok p =>
+    obtain ⟨src, warned⟩ := p
+    simp only [hsel] at hc
+    cases hdata : src.filterMap id with
+    | nil => simp [hdata] at hc
+    | cons d0 rest =>
+      simp only [hdata] at hc
+      cases hor : originsOf h (d0 :: rest) with
+      | error e => simp [hor] at hc
+      | ok parents =>
+        simp only [hor] at hc
+        cases hn1 : nonStrict h oi with
+        | error e => simp [hn1] at hc
+        | ok ns1 =>
+          simp only [hn1] at hc
+          cases hn2 : (if ns1 then Except.ok true else nonStrict h o.own) with
+          | error e => simp [hn2] at hc
+          | ok ns =>
+            simp only [hn2] at hc
+            cases hm0 : metaOf h d0 with
+            | error e => simp [hm0] at hc
+            | ok tm0 =>
+              simp only [hm0] at hc
+              cases hnt : newTableMeta h tm0.name tm0.dests
+                  (.node none parents (some (pandasOp m))) false (!ns) with
+              | error e => simp [hnt] at hc
+              | ok q =>
+                obtain ⟨h1, mref⟩ := q
+                simp only [hnt] at hc
+                cases hit : sourceItems h (d0 :: rest) with
+                | error e => simp [hit] at hc
+                | ok items =>
+                  simp only [hit] at hc
+                  cases hl : combineLoop out (h1, []) items with
+                  | error e => simp [hl] at hc
+                  | ok st =>
+                    obtain ⟨h2, acc⟩ := st
+                    simp [hl, Store.alloc] at hc
+                    obtain ⟨rfl, rfl, rfl⟩ := hc
+                    refine ⟨src, warned, d0, rest, parents, ns1, ns, tm0, h1, mref, items, h2, acc,
+                      ?_, ?_, ?_, ?_, ?_, ?_, ?_, ?_, ?_, ?_, ?_, ?_⟩ <;>
+                      first | rfl | assumption | simp [Store.alloc]
+
+/-- `_combine_tables` returns `None` exactly when no selected source carries info; the heap is untouched -/
+theorem combine_none {h : Heap} {m : Option Str} {oi : Option Ref} {o : Other} {out : List Label}
+    {h' : Heap} {w : List Warn} (hc : combine h m oi o out = .ok (h', none, w)) :
+    h' = h ∧ ∃ src warned, selectSources m o = .ok (src, warned) ∧ src.filterMap id = [] ∧
+      w = (if warned then [Warn.unknownMethod] else []) := by
+  unfold combine at hc
+  cases hsel : selectSources m o with
+  | error e => simp [hsel] at hc
+  | ok p =>
+    obtain ⟨src, warned⟩ := p
+    simp only [hsel] at hc
+    cases hdata : src.filterMap id with
+    | nil =>
+      simp [hdata] at hc
+      exact ⟨hc.1.symm, src, warned, rfl, hdata, hc.2.symm⟩
+    | cons d0 rest =>
+      simp only [hdata] at hc
+      repeat (first | (split at hc) | (simp at hc))
+
+
+/-! ## `_update_columns` -/
+
+/-- (label, dtype kind) of the frame columns seen so far -/
+def kinds (cs : List (Label × Str × Char)) : List (Label × Char) := cs.map (fun c => (c.1, c.2.2))
+
+theorem kinds_append (xs ys : List (Label × Str × Char)) : kinds (xs ++ ys) = kinds xs ++ kinds ys := by
+  simp [kinds]
+
+/-- invariant of the check/register loop of `_update_columns`, relative to the heap `b` and the
+    register `acc0` it started from -/
+structure UpdInv (empty : Bool) (b h : Heap) (acc0 acc : Acc) (done : List (Label × Str × Char)) : Prop where
+  tmetas : h.tmetas = b.tmetas
+  dsets : h.dsets = b.dsets
+  infos : h.infos = b.infos
+  dicts : h.dicts = b.dicts
+  fmts : h.fmts = b.fmts
+  cols : Store.Ext b.cols h.cols
+  bound : ∀ l (r : Nat), (l, r) ∈ acc → r < h.cols.next
+  old : ∀ l (r : Nat), assoc acc0 l = some r → assoc acc l = some r
+  new : ∀ l (r : Nat), assoc acc l = some r → assoc acc0 l = none →
+    empty = false ∧ b.cols.next ≤ r ∧
+    ∃ k u, assoc (kinds done) l = some k ∧ unitFromKind k = some u ∧ h.cols.get r = some ⟨u, none, none⟩
+  all : empty = false → ∀ l, (assoc (kinds done) l).isSome → (assoc acc l).isSome
+
+theorem updStep_inv {strict empty : Bool} {b h : Heap} {acc0 acc : Acc} {done : List (Label × Str × Char)}
+    {c : Label × Str × Char} {h' : Heap} {acc' : Acc}
+    (hs : updStep strict empty (h, acc) c = .ok (h', acc')) (inv : UpdInv empty b h acc0 acc done) :
+    UpdInv empty b h' acc0 acc' (done ++ [c]) := by
+  obtain ⟨l0, d0, k0⟩ := c
+  unfold updStep at hs
+  simp only at hs
+  cases he : empty with
+  | true =>
+    simp [he] at hs
+    obtain ⟨rfl, rfl⟩ := hs
+    subst he
+    exact { inv with
+      new := fun l r h1 h2 => by have := (inv.new l r h1 h2).1; simp at this
+      all := fun h => by simp at h }
+  | false =>
+    subst he
+    simp only [Bool.false_eq_true, if_false] at hs
+    cases has : assoc acc l0 with
+    | some r0 =>
+      simp only [has] at hs
+      have hst : h' = h ∧ acc' = acc := by
+        by_cases hstr : strict = true
+        · simp only [hstr, if_true] at hs
+          cases hg : h.cols.get r0 with
+          | none => simp [hg] at hs
+          | some cm =>
+            simp only [hg] at hs
+            cases hck : checkDtype cm.unit k0 with
+            | error e => simp [hck] at hs
+            | ok u => simp [hck] at hs; exact ⟨hs.1.symm, hs.2.symm⟩
+        · simp [hstr] at hs; exact ⟨hs.1.symm, hs.2.symm⟩
+      obtain ⟨rfl, rfl⟩ := hst
+      exact { inv with
+        new := fun l r h1 h2 => by
+          obtain ⟨a1, a2, k, u, a3, a4, a5⟩ := inv.new l r h1 h2
+          refine ⟨a1, a2, k, u, ?_, a4, a5⟩
+          rw [kinds_append, assoc_append, a3]
+        all := fun _ l hl => by
+          rw [kinds_append, assoc_append] at hl
+          cases hk : assoc (kinds done) l with
+          | some k => exact inv.all rfl l (by simp [hk])
+          | none =>
+            rw [hk] at hl
+            by_cases hl0 : l0 = l
+            · subst hl0; simp [has]
+            · simp [kinds, assoc, hl0] at hl }
+    | none =>
+      simp only [has] at hs
+      cases hu : unitFromKind k0 with
+      | none => simp [hu] at hs
+      | some u =>
+        simp [hu, Store.alloc] at hs
+        obtain ⟨rfl, rfl⟩ := hs
+        have hkn : assoc (kinds done) l0 = none := by
+          cases hk : assoc (kinds done) l0 with
+          | none => rfl
+          | some k =>
+            have := inv.all rfl l0 (by simp [hk])
+            simp [has] at this
+        exact {
+          tmetas := inv.tmetas, dsets := inv.dsets, infos := inv.infos, dicts := inv.dicts, fmts := inv.fmts
+          cols := ⟨by have := inv.cols.1; simp; omega, fun x hx => by
+            have : x ≠ h.cols.next := by have := inv.cols.1; omega
+            simp [this, inv.cols.2 x hx]⟩
+          bound := by
+            intro l r hm
+            rcases List.mem_append.1 hm with hm | hm
+            · have := inv.bound l r hm; simp; omega
+            · simp at hm; simp [hm.2]
+          old := by
+            intro l r h0
+            rw [assoc_append, inv.old l r h0]
+          new := by
+            intro l r h1 h2
+            rw [assoc_append] at h1
+            cases hal : assoc acc l with
+            | some r' =>
+              simp [hal] at h1
+              subst h1
+              obtain ⟨a1, a2, k, u', a3, a4, a5⟩ := inv.new l r' hal h2
+              have hb := inv.bound l r' (assoc_mem hal)
+              have hne : @Ne Nat r' h.cols.next := by omega
+              refine ⟨a1, a2, k, u', ?_, a4, by simp [hne, a5]⟩
+              rw [kinds_append, assoc_append, a3]
+            | none =>
+              simp [hal, assoc] at h1
+              by_cases hl0 : l0 = l
+              · subst hl0
+                simp at h1
+                subst h1
+                refine ⟨rfl, inv.cols.1, k0, u, ?_, hu, by simp⟩
+                rw [kinds_append, assoc_append, hkn]
+                simp [kinds, assoc]
+              · simp [hl0] at h1
+          all := by
+            intro _ l hl
+            rw [assoc_append]
+            rw [kinds_append, assoc_append] at hl
+            cases hk : assoc (kinds done) l with
+            | some k =>
+              have := inv.all rfl l (by simp [hk])
+              cases hal : assoc acc l with
+              | some r => simp
+              | none => simp [hal] at this
+            | none =>
+              rw [hk] at hl
+              by_cases hl0 : l0 = l
+              · subst hl0
+                cases hal : assoc acc l0 with
+                | some r => simp
+                | none => simp [assoc]
+              · simp [kinds, assoc, hl0] at hl }
+
+theorem updLoop_inv {strict empty : Bool} {b : Heap} {acc0 : Acc} (cs : List (Label × Str × Char)) :
+    ∀ {h : Heap} {acc : Acc} {done : List (Label × Str × Char)} {h' : Heap} {acc' : Acc},
+    updLoop strict empty (h, acc) cs = .ok (h', acc') → UpdInv empty b h acc0 acc done →
+    UpdInv empty b h' acc0 acc' (done ++ cs) := by
+  induction cs with
+  | nil =>
+    intro h acc done h' acc' hl inv
+    simp [updLoop] at hl
+    obtain ⟨rfl, rfl⟩ := hl
+    simpa using inv
+  | cons c rest ih =>
+    intro h acc done h' acc' hl inv
+    unfold updLoop at hl
+    cases hs : updStep strict empty (h, acc) c with
+    | error e => simp [hs] at hl
+    | ok st =>
+      obtain ⟨h1, acc1⟩ := st
+      simp [hs] at hl
+      have := ih hl (updStep_inv hs inv)
+      simpa using this
+
 end Pdt.C05
